@@ -371,6 +371,12 @@ def r6_skip_gating(cx, sites):
         g = guard_texts(c, stop=h)
         ok = any(t.endswith(".store_skips") and p for t, p in g)
         cx.require(ok, c, "add_exception for a SkipComponent is guarded by broker.store_skips")
+        # '... and then against the skipping component itself': a skip is never mirrored to the specs the component implements or is built on
+        a0 = U(c.args[0]) if c.args else "?"
+        lp_ = enclosing(c, ast.For)
+        mirrored = lp_ is not None and any(a is h for a in ancestors(lp_)) and a0 == U(lp_.target) and "get_registry_points" in U(lp_.iter)
+        own = a0 in ("self.component", "component") and not mirrored
+        cx.require(own, c, "a deliberate skip is recorded against the skipping component itself (not against a registry point)", construct=short(c, 90))
     # and every SkipComponent arm in the engine either records under the gate or does nothing else that records
     mm = cx.repo.module(DR)
     fn = mm.func("Broker.__init__", "C03.R6")
